@@ -226,8 +226,6 @@ theorem subText_ne_nil (j : Nat) : b (Alias.sub j).text ≠ [] := by
   intro h
   exact b_subsel (List.append_eq_nil_iff.mp h).1
 
-theorem kw_asOpen : rawC (b " as (") = true := by decide +kernel
-
 theorem subsOK_all (k n : Nat) : subsOK k n := fun j _ _ =>
   ⟨rawE_word (allWord_subText j), rawC_append (rawC_word (allWord_subText j) (subText_ne_nil j)) kw_asOpen⟩
 
